@@ -68,7 +68,7 @@ func TestC02(t *testing.T) {
 	embs := []emb{{1, 0}, {1, lim - 16}, {1, -(lim - 16)}, {2, 0}, {1000000000, 12345}, {1 << 58, 0}, {1 << 57, 1<<57 + 3}}
 	nperm := 1
 	if vio.Thorough() {
-		nperm = 4
+		nperm = 2
 	}
 	skipped, done := 0, 0
 	for ci, c := range cases {
@@ -84,7 +84,11 @@ func TestC02(t *testing.T) {
 		}
 		for ei, e := range embs {
 			// every (case, embedding) in thorough; a rotating subset in quick
+			// quick: two embeddings per case; thorough: all for short inputs, four rotating ones otherwise
 			if !vio.Thorough() && ei != ci%len(embs) && ei != (ci/7+3)%len(embs) {
+				continue
+			}
+			if vio.Thorough() && len(c.S) > 5 && (ei+ci)%7 >= 4 {
 				continue
 			}
 			var base *rec
